@@ -36,6 +36,11 @@ func runC09(r *Report, tier string) {
 	// every use of the (shared) protected bytes sees them as they were
 	r.rule("R01.5", "(shared with C01) the ToBeSigned builders write no memory that existed before the call.")
 	checkBuilderPurity(r, "R01.5")
+	// nothing outside the decoders drops or replaces the retained raw bytes
+	// of a decoded message it hands on (the hash-envelope verifier returns
+	// the message it decoded)
+	r.rule("R02.4", "(shared with C02) Headers.RawProtected / RawUnprotected of a value reached through a pointer, or of a local that is returned by address, are written only in the decoder family.")
+	checkRawBucketWriters(r, "R02.4")
 }
 
 // checkSignMessageOrder: the COSE_Sign encoder appends the encoding of
